@@ -405,7 +405,7 @@ def part_sequences(ctx, E):
     by_family = {}
     for nm, t in tab.items():
         by_family.setdefault(tuple(sorted(t["family"])), []).append(nm)
-    nlong = ctx.budget(300, 10000)
+    nlong = ctx.budget(300, 6000)
     for _ in range(nlong):
         glob = rng.random() < 0.5
         row = rng.choice(rows)
@@ -543,7 +543,7 @@ def part_dispatch(ctx, E):
     def add(opts, row, tag, extra=None):
         cases.append((opts, row, tag, extra))
 
-    nvalid = ctx.budget(150, 4000)
+    nvalid = ctx.budget(150, 3000)
     for i in range(nvalid):
         glob = rng.random() < 0.4
         row = None if glob else rng.choice(E.rows)
@@ -607,7 +607,7 @@ def part_dispatch(ctx, E):
             o = gen_options(rng, E, glob)
             o[h] = rng.choice([0, 1, 12345, 10 ** 7, "250"])
             add(o, rng.choice(E.rows), "override:head", h)
-    for k in range(ctx.budget(120, 3000)):
+    for k in range(ctx.budget(120, 2000)):
         glob = rng.random() < 0.4
         o = gen_options(rng, E, glob)
         for key in rng.sample(OVERRIDE_KEYS, rng.choice([1, 1, 2, 3])):
